@@ -15,6 +15,24 @@ CLAIMS = {
  "C05": ("model_checking", "5 C05", "gram",
          "For every sentence of the bounded space the ambiguity flag is compared with the reference derivation count (>=2 needed for a set flag) and translation count (>=2 forces the flag), for all one_parse x cost x lookahead settings.",
          TECH + " (engine gram)"),
+ "C03": ("model_checking", "5 C03", "gram",
+         "All sentences of the bounded families under the translation menus, all parses requested: Den(DAG) (one alternative per ALT occurrence) is compared in both directions with the reference set of translations of all derivations; acyclicity and ALT shape checked on the real node graph. Two genuine defects of the DAG builder (D23, D24) are recorded as known findings with reference-side class predicates; the 'no spurious tree' direction and shape are checked everywhere.",
+         TECH + " (engine gram, all-parses)"),
+ "C04": ("model_checking", "5 C04", "gram",
+         "Cost flag on/off x one/all parses x cost menus x translation menus over the bounded families: denoted set = argmin of the reference translation costs, cost fields sum up, root cost = minimum; with the tracking parse_free and with NULL. Missing minimal translations that are consequences of D23/D24 are attributed to those findings.",
+         TECH + " (engine gram, cost menus)"),
+ "C10": ("model_checking", "5 C10", "def",
+         "Full product of small terminal lists x rule lists (names incl. reserved ones, codes incl. negative/repeated, 17 translation/cost forms) x strict flag; rc = 0 iff the reference WF model finds no documented defect, otherwise rc names a defect that is present; error state, refusal to parse and a following good definition are checked after every rejection.",
+         "bounded exhaustive enumeration of callback-level descriptions on the real code against a reference well-formedness model (engine def)"),
+ "C14": ("model_checking", "5 C14", "hist",
+         "Every history of API operations over <= 2 (thorough 3) live objects up to a depth without deduplication, plus deduplicated BFS keyed on model state + a fingerprint of the library's file-scope state + live block count; each history in a pristine process; each call compared with the same call on a fresh object, plus leak-freedom when nothing is live.",
+         "explicit-state exploration of API call histories on the real code (fork per history), fresh-object differential + contract model (engine hist)"),
+ "C15": ("model_checking", "5 C15", "hist",
+         "Same history space as C14 judged by the contract model (error code = code of the most recent failing call, messages non-empty, previous values of setters, defaults, clamping), plus all setter argument sequences of length <= 3 over 7 extreme values and token validation over 7 code layouts x all codes in/around the declared range x 3 positions, plus the NULL-allocator rule.",
+         "explicit-state exploration of API call histories + exhaustive argument/code enumeration on the real code (engine hist)"),
+ "C19": ("model_checking", "5 C19", "cont",
+         "Explicit-state BFS over operation histories of the real hash table (fixpoint under a slot cap, 4 hash functions incl. constant), object stack and VLO (depth-bounded, tiny segment sizes, realloc moving / shrinking in place) for the C and the C++ implementations, against std::set / byte-string models after every operation, under ASan.",
+         "explicit-state exploration of container operation histories on the real code with canonical-layout deduplication (engine cont)"),
 }
 NOTE = "trusted: reference model (harness/ref.hpp, self-checked), gcc + sanitizer runtimes, fork; small-scope hypothesis beyond the stated bounds"
 
@@ -44,10 +62,13 @@ except Exception:
     pass
 m = {
     "version": 1,
-    "setup_cmd": "bin/vcheck build c cxx c-asan cxx-asan",
+    "setup_cmd": "bin/vcheck build c cxx c-asan cxx-asan cont-c cont-cxx",
     "hooks": {"guard": "YAEP_VERIF", "enable": "checks compile /repo/src with -DYAEP_VERIF (bin/vcheck build)",
               "baseline_off_cmd": "bin/baseline_off.sh", "source_commits": hooks_commits, "add_only": True},
     "engines": [
+        {"name": "def", "path": "harness/eng_def.cc", "serves_properties": ["C10"], "kind_free_text": "product enumeration of callback-level grammar descriptions, reference well-formedness model"},
+        {"name": "hist", "path": "harness/eng_hist.cc", "serves_properties": ["C14", "C15"], "kind_free_text": "exploration of API call histories, one pristine forked process per history, fresh-object differential, dedup on model state + file-scope fingerprint (hook) + live blocks (hook)"},
+        {"name": "cont", "path": "harness/eng_cont.cc", "serves_properties": ["C19"], "kind_free_text": "explicit-state BFS over container operation histories (C and C++), canonical layout states, harness allocator with explored realloc behaviour"},
         {"name": "gram", "path": "harness/eng_gram.cc", "serves_properties": ["C01", "C02", "C03", "C04", "C05", "C06", "C07", "C08", "C09", "C13"],
          "kind_free_text": "explicit enumeration of bounded grammar families x inputs x flag vectors on the real library, reference-model oracle, fork-contained batches with bisection and replay-before-report"},
     ],
